@@ -292,7 +292,11 @@ def main():
         import glob
         reg_lines = []
         nreg = 0
-        for path in sorted(glob.glob(os.path.join(HERE, "replays", prop, "*.json"))):
+        # (replays/<id>/thorough/ holds reproductions that take minutes: thorough tier only)
+        reg_paths = sorted(glob.glob(os.path.join(HERE, "replays", prop, "*.json")))
+        if args.tier == "thorough":
+            reg_paths += sorted(glob.glob(os.path.join(HERE, "replays", prop, "thorough", "*.json")))
+        for path in reg_paths:
             if os.path.basename(path).startswith("known-"):
                 continue
             try:
